@@ -100,7 +100,20 @@ def generate(rs, mode, tier, index):
         mask = M
         mask_cls = "full" if M.all() else ("disjoint" if np.all(M.sum(0) <= 1) else "partial")
     has_zero = mask is not None and not np.all(mask == 1)
-    lb = None if (has_zero or rng.coin(0.7)) else sig(rng.uniform(0.02, 0.2, n_src))
+    # lower bounds: none, positive on every source (only when no layer forbids a source), or
+    # *mixed* - positive on some of the sources every layer may use, zero on the others
+    free = np.ones(n_src, bool) if mask is None else np.all(mask == 1, axis=0)
+    lb_kind = rng.choice(["none", "all", "mixed"], p=[0.55, 0.2, 0.25])
+    lb = None
+    if lb_kind == "all" and not has_zero:
+        lb = sig(rng.uniform(0.02, 0.2, n_src))
+    elif lb_kind == "mixed" and free.any():
+        pos = free & (rng.random(n_src) < 0.5)
+        if not pos.any():
+            pos[int(np.flatnonzero(free)[0])] = True
+        if pos.all() and n_src > 1:
+            pos[rng.integers(0, n_src - 1)] = False
+        lb = sig(np.where(pos, rng.uniform(0.05, 0.3, n_src), 0.0))
     ub = sig(rng.uniform(1.0, 8.0, n_src))
     pb = rng.choice(["default", "narrow", "vector"], p=[0.5, 0.3, 0.2])
     if pb == "default":
@@ -159,6 +172,11 @@ def generate(rs, mode, tier, index):
             "max_iter": rng.integers(2, 12) if not big else rng.integers(2, 3),
             "solver": rng.choice(["SCS", "CLARABEL"], p=[0.6, 0.4]),
             "perturb": rng.integers(1, 10 ** 6)}
+    if mode == "clean" and not big and rng.coin(0.3):
+        # stop on the loop's own tolerances while the scheme still makes visible progress
+        plan["ftol"] = rng.choice([1e-3, 1e-2, 3e-2])
+        plan["xtol"] = rng.choice([1e-8, 1e-8, 1e-3])
+        plan["max_iter"] = rng.choice([15, 30])
     if mode == "werror":
         # the only execution runs under -W error with a capped SCS: any inaccurate solve makes
         # cvxpy warn, i.e. raise; the call must raise or return a fully valid result
@@ -189,6 +207,9 @@ def run_decomp(plan, est, seed=None):
         kw["max_iters"] = plan["scs_max_iters"]
     if plan.get("init_iter", 1000) != 1000:
         kw["init_iter"] = plan["init_iter"]
+    for t in ("ftol", "xtol"):
+        if plan.get(t) is not None:
+            kw[t] = float(plan[t])
     n_layers_arg = plan["n_layers"] if plan.get("layers_arg", "explicit") == "explicit" else None
     return est.fit_decomposition(
         plan["B"], n_layers=n_layers_arg, mask=plan["mask"], lbp=plan["lbp"],
@@ -532,6 +553,10 @@ def candidates(plan):
     if plan["pb"] != "default":
         p = dict(plan)
         p["lbp"], p["ubp"], p["pb"] = 0.0, 1.0, "default"
+        yield p
+    if plan.get("ftol") is not None or plan.get("xtol") is not None:
+        p = dict(plan)
+        p["ftol"] = p["xtol"] = None
         yield p
 
 
